@@ -122,6 +122,20 @@ def run(pid, tier, seed, *, select, extra_cases, rule, assumptions, level="model
                        earlyOn=C["earlyOn"], resumed=r["case"].get("resume") is not None, **{k: v for k, v in r["case"]["opt"].items() if k != "seed"})
             viol.append(dict(clause=x["clause"], sig=sig, detail=f"expected iterations {x['ev']}", driver="harness.drv_solve:run_case",
                              cfg=r["case"], record=dict(C=C, obs=r["obs"], draws=r["draws"])))
+        import copy
+        badt = {x["tid"] for x in rej}
+        st_recs = []
+        base = next((r for k, r in enumerate(slim) if k not in badt and r["decoded"] and r["C"]["n"] >= 2 and len(r["obs"]["hist"]) >= 2
+                     and r["obs"]["hist"][1]["ver"] >= 0 and not r["obs"]["hist"][1]["nan"] and not r["obs"]["hist"][0]["nan"]), None)
+        if base is not None:
+            c = copy.deepcopy(base); c["obs"]["params"] += 1
+            st_recs.append((c, "ReturnedParamsWrong", "returned parameter version off by one"))
+            c = copy.deepcopy(base); c["obs"]["hist"][1]["ver"] += 1
+            st_recs.append((c, "LossAtWrongParams", "loss history entry evaluated at the wrong parameters"))
+            c = copy.deepcopy(base); c["obs"]["hist"][0]["t"], c["obs"]["hist"][1]["t"] = c["obs"]["hist"][1]["t"], c["obs"]["hist"][0]["t"]
+            if c["obs"]["hist"][0]["t"] != base["obs"]["hist"][0]["t"]:
+                st_recs.append((c, "LossOnWrongBatch", "two batches swapped in the loss history"))
+        nself = tracecheck.selftest("Trace_Solve", TRACE_CFG, st_recs, sc, "st" + pid)
         leg_stats = {}
         if extra_leg is not None:
             v2, leg_stats = extra_leg(tier, seed)
@@ -148,7 +162,7 @@ def run(pid, tier, seed, *, select, extra_cases, rule, assumptions, level="model
             samples=[core.clip(dict(C=r["C"], opt=r["case"]["opt"], obs=r["obs"]), 1800) for r in recs[:: max(1, len(recs) // 2)][:2]],
             exhaustive=False, mc=dict(bounds=dict(zip(("MaxN", "MaxCE", "MaxPatience", "MaxVal"), bounds)), distinct=r_mc.distinct, generated=r_mc.generated, depth=r_mc.depth),
             scenarios_emitted_by_tlc=len(scen), scenario_strata=ngroups, scenarios_replayed=len(recs), replay_stats=stats,
-            records_rejected=len(rej), known_finding_hits=n_known, rule=rule, **leg_stats)
+            records_rejected=len(rej), known_finding_hits=n_known, binding_selftests_rejected=nself, rule=rule, **leg_stats)
         core.write_evidence(pid, tier, seed, level, cov, assumptions, time.time() - t0, n_new)
         print(f"{pid} [{tier}] MC states={r_mc.distinct} scenarios={len(scen)} replayed={len(recs)} accepted={acc} rejected={len(rej)} "
               f"(new={n_new} known={n_known}) {stats} wall={time.time() - t0:.0f}s")
